@@ -165,15 +165,21 @@ class Report:
                                      verdict="accepted" if (k + 1) in verdicts.accepted else "rejected"))
 
     def require_counts(self, driver, minimum):
-        """Vacuity control: disjunct counters printed by the trace spec must reach a minimum."""
-        tot = {}
-        for t in self.tv:
-            if t["driver"] == driver:
-                for k, v in t["counts"].items():
-                    tot[k] = tot.get(k, 0) + v
-        for k, m in minimum.items():
-            if tot.get(k, 0) < m:
-                raise tlc.MachineryError(f"vacuous run: {driver} counter {k} = {tot.get(k, 0)} < {m}")
+        """Vacuity control: disjunct counters printed by the trace spec must reach a minimum.  Evaluated in finish() and only
+        when the run found no violation: on a tree that breaks the property the counters are naturally low, and the violations
+        must be reported, not masked by a vacuity complaint."""
+        self._required = getattr(self, "_required", []) + [(driver, dict(minimum))]
+
+    def _check_required(self):
+        for driver, minimum in getattr(self, "_required", []):
+            tot = {}
+            for t in self.tv:
+                if t["driver"] == driver:
+                    for k, v in t["counts"].items():
+                        tot[k] = tot.get(k, 0) + v
+            for k, m in minimum.items():
+                if tot.get(k, 0) < m:
+                    raise tlc.MachineryError(f"vacuous run: {driver} counter {k} = {tot.get(k, 0)} < {m}")
 
     # -- final
     def finish(self):
@@ -202,6 +208,8 @@ class Report:
                 json.dump(v, f, indent=1, default=str)
             out_lines.append(f"VIOLATION property={self.pid} replay={path}")
             out_lines.append(f"  driver={v['driver']} clause={v['clause']} scenario={json.dumps(_short(v['scenario'], 400), default=str)}")
+        if not fresh:
+            self._check_required()
         self._write_evidence(len(fresh), {k: n for k, (_, n) in known.items()})
         for ln in out_lines:
             print(ln)
